@@ -117,6 +117,35 @@ fn main() {
     }
 }
 """, True, "borrow"))
+    # the converse half for lookup keys: a borrowed, unsized, short-lived key works with every
+    # key-taking method of both facades, for owned (String) and borrowed ('static str) stored keys
+    for kty, mk in (("String", "String::from(\"a\")"), ("&'static str", "\"a\"")):
+        progs.append((f"short_lived_unsized_lookup_keys_{'owned' if kty == 'String' else 'static'}", f"""use flurry::*;
+#[allow(unused_variables, unused_must_use)]
+fn main() {{
+    let map: HashMap<{kty}, u32> = HashMap::new();
+    let set: HashSet<{kty}> = HashSet::new();
+    map.pin().insert({mk}, 1);
+    set.pin().insert({mk});
+    {{
+        let local = String::from("a");
+        let q: &str = &local[..];
+        let g = map.guard();
+        let sg = set.guard();
+        map.get(q, &g); map.get_key_value(q, &g); map.contains_key(q, &g);
+        map.compute_if_present(q, |_, v| Some(*v), &g); map.remove_entry(q, &g); map.remove(q, &g);
+        set.contains(q, &sg); set.get(q, &sg); set.take(q, &sg); set.remove(q, &sg);
+        let p = map.pin();
+        p.get(q); p.get_key_value(q); p.contains_key(q);
+        p.compute_if_present(q, |_, v| Some(*v)); p.remove_entry(q); p.remove(q);
+        if false {{ let _ = &p[q]; }}
+        let w = map.with_guard(&g);
+        w.get(q); w.remove_entry(q);
+        let sp = set.pin();
+        sp.contains(q); sp.get(q); sp.take(q); sp.remove(q);
+    }}
+}}
+""", True, "borrow"))
     return progs, missing
 
 
@@ -166,7 +195,7 @@ C17_LOOKUP = ("let m: HashMap<{K}, {V}> = HashMap::new(); let g = m.guard(); let
               "let _ = m.len(); let _ = m.is_empty(); let p = m.pin(); let _ = p.get(&k); let _ = p.iter().count(); "
               "let s: HashSet<{K}> = HashSet::new(); let sg = s.guard(); let _ = s.contains(&k, &sg); let _ = s.iter(&sg).count(); "
               # every other read-only entry point, through both facades
-              "let _ = p.get_key_value(&k); let _ = p.contains_key(&k); let _ = p.keys().count(); let _ = p.values().count(); "
+              "if false {{ let _ = &p[&k]; }} let _ = p.get_key_value(&k); let _ = p.contains_key(&k); let _ = p.keys().count(); let _ = p.values().count(); "
               "let _ = p.len(); let _ = p.is_empty(); let w = m.with_guard(&g); let _ = w.get(&k); let _ = w.iter().count(); "
               "let _ = s.get(&k, &sg); let _ = s.len(); let _ = s.is_empty(); "
               "let s2: HashSet<{K}> = HashSet::new(); let sg2 = s2.guard(); "
